@@ -383,6 +383,10 @@ class HddChain(HdsChain):
         return {"depth": len(case["layers"]), "explicit_top": case["explicit_top"], "plain_base": case["plain_base"]}
 
 
+gen_hds_layers = c06.gen_hds_layers
+HddSplit = c06.HddSplit
+
+
 # ----------------------------------------------------------------------------- VHDX chains on disk
 BITMAP_PATTERNS = ["zero", "ones", "alt_bytes", "random", "straddle", "alt_bits"]
 
@@ -1124,4 +1128,4 @@ class VdiDifferencing(Suite):
         return {"image_type": case["image_type"]}
 
 
-SUITES = {"vdi_differencing": VdiDifferencing(), "hdd_chain": HddChain(), "qcow2_chain": Qcow2Chain(), "qcow2_snapshot": Qcow2Snapshots(), "vmdk_delta": VmdkDelta(), "vdi_chain": VdiChain(), "hds_chain": HdsChain(), "vhdx_chain": VhdxChain(), "open_layouts": OpenLayouts()}
+SUITES = {"vdi_differencing": VdiDifferencing(), "hdd_chain": HddChain(), "hdd_split": HddSplit(), "qcow2_chain": Qcow2Chain(), "qcow2_snapshot": Qcow2Snapshots(), "vmdk_delta": VmdkDelta(), "vdi_chain": VdiChain(), "hds_chain": HdsChain(), "vhdx_chain": VhdxChain(), "open_layouts": OpenLayouts()}
